@@ -7,7 +7,12 @@ use crate::passes::{DiagnosticManager, LintError, LintPass};
 pub struct CalleeSavedRegisterCheck;
 impl LintPass for CalleeSavedRegisterCheck {
     fn run(cfg: &Cfg, errors: &mut DiagnosticManager) {
-        for func in cfg.functions().values() {
+        // A function with several labels is listed once per label: check every
+        // function once, in program order
+        let mut functions = cfg.functions().into_values().collect::<Vec<_>>();
+        functions.sort_by_key(|f| f.entry().order());
+        functions.dedup_by(|a, b| std::rc::Rc::ptr_eq(a, b));
+        for func in &functions {
             let exit_vals = func.exit().reg_values_in();
             for reg in &Register::callee_saved_set() {
                 match exit_vals.get(&reg) {
